@@ -753,20 +753,32 @@ Definition gf_trace_map (p : Z) (f a b c : gf) (n : N) : res (gf * gf) :=
   do r <- gf_compose_mod p f a V';
   Ok (r, U').
 
-(* this->_gf_trace_map(ff, n, b):  x = ff % this; h = r = x;
-   for (i = 1; i < n; ++i) { h = h.gf_frobenius_map(this, b); r += h; r %= this; }   (as repaired in a42bcec) *)
+(* the trace loop of gf_edf_shoup (odd p): rp = rp.gf_frobenius_map(this, b); H += rp; H %= this *)
+Fixpoint edf_trace_loop (p : Z) (f : gf) (b : list gf) (cnt : nat) (rp H : gf) : res gf :=
+  match cnt with
+  | O => Ok H
+  | S c =>
+      do rp' <- gf_frobenius_map p rp f b;
+      do H' <- gf_rem p (gf_add p H rp') f;
+      edf_trace_loop p f b c rp' H'
+  end.
+
+(* this->_gf_trace_map(ff, n, b): note `h = gf_frobenius_map(h, b)` is this->gf_frobenius_map(h, b),
+   i.e. this**p % h computed from the base b, and h, r start from the unreduced ff (transcribed
+   as written; the repository's test suite pins this behaviour; since a432cd9 gf_edf_shoup no
+   longer calls it) *)
 Fixpoint trace_map_loop (p : Z) (f : gf) (b : list gf) (cnt : nat) (h r : gf) : res gf :=
   match cnt with
   | O => Ok r
   | S c =>
-      do h' <- gf_frobenius_map p h f b;
+      do h' <- gf_frobenius_map p f h b;
       do r' <- gf_rem p (gf_add p r h') f;
       trace_map_loop p f b c h' r'
   end.
 
 Definition gf_trace_map_ (p : Z) (f ff : gf) (n : nat) (b : list gf) : res gf :=
-  do x <- gf_rem p ff f;
-  trace_map_loop p f b (n - 1) x x.
+  do _x <- gf_rem p ff f;
+  trace_map_loop p f b (n - 1) ff ff.
 
 (* U[i] = U[i-1].gf_frobenius_map(this, b) *)
 Fixpoint shoup_U (p : Z) (f : gf) (b : list gf) (cnt : nat) (prev : gf) : res (list gf) :=
@@ -858,7 +870,10 @@ Fixpoint edf_s (p : Z) (fuel : nat) (n : nat) (f : gf) (rs : rstate) : res (list
               Ok (set_union fs1 fs2, rs2)
             else
               do b <- gf_frobenius_monomial_base p f;
-              do H <- gf_trace_map_ p f r n b;
+              (* H = r % this; rp = H; for (i = 1; i < n; ++i) { rp = rp.gf_frobenius_map(this, b); H += rp; H %= this; }
+                 (inline trace, a432cd9; the member _gf_trace_map is no longer called here) *)
+              do H0 <- gf_rem p r f;
+              do H <- edf_trace_loop p f b (n - 1) H0 H0;
               do h <- gf_pow_mod p f H (Z.to_N ((mp_get_ui p - 1) / 2));
               do h1 <- gf_gcd p f h;
               do h2 <- gf_gcd p f (gf_sub_int p h 1);
